@@ -7,7 +7,7 @@ use crate::view::View;
 fn budget(t: Tier) -> u64 {
     match t {
         Tier::Quick => 3_600,
-        Tier::Thorough => 60_000,
+        Tier::Thorough => 240_000,
     }
 }
 
